@@ -421,6 +421,14 @@ theorem decrypt_order_as_modelled :
       "VerifyHeaderSignature", "processSegments"] ∧
     Gen.maxSegment + 1 = 2 ^ 32 ∧ Gen.fileKeyLength = 32 := by decide
 
+/-- T1 (pool hygiene): every function of the package that takes a buffer from `BufPool` has exactly one
+    `Get`, exactly one `Put`, and that `Put` is a `defer` in the statement right after the `Get` — so a
+    buffer is never handed back twice, and never while the function still uses it. (A second `Put`
+    anywhere, e.g. on an error path, makes this obligation fail; the harness's `bufpool-double-put`
+    probe and the history family then exhibit the shared buffer.) -/
+theorem bufpool_discipline_as_modelled :
+    Gen.bufPoolDiscipline = [("processSegments", 1, 1, true), ("readHeader", 1, 1, true)] := by decide
+
 /-- Non-vacuity of the segment hypothesis beyond the bare header: for every lawful AEAD the honest
     sealed segments (hence every truncation of the honest payload at a segment boundary) satisfy it. -/
 theorem tamper_safe_on_honest_prefixes (c : Crypto) (P : EncParams) (cph : Nat) (pk np : Bytes) (p : Bytes) :
